@@ -126,6 +126,87 @@ def free_running(ctx, uni, mp, sets, nthreads, nsessions):
     return [t for o in out for t in o]
 
 
+def preemption_family(ctx, uni, mp, thorough):
+    """Preemption inside calls (harness/preempt.py): exchange 1 is preempted at its k-th library line - for EVERY k on
+    the toy integer pairs, for a sample of k where calls are long - by the whole of exchange 2, which runs on another
+    thread over the same module-level group and parameter objects (or over another set); and exchange 2 run from
+    inside an entropy request of exchange 1 (re-entrant entropy source, same thread)."""
+    import preempt
+    for z in ("m65", "q251"):
+        uni.paramset("P" + z, grp=z)
+    T = thorough
+    pairs = [("Pi23", "i23", "Pi263", "i263", 10 ** 9 if T else 220), ("Pi263", "i263", "Pi23", "i23", 10 ** 9 if T else 120),
+             ("Pi23", "i23", "Pi23", "i23", 10 ** 9 if T else 60),
+             ("Pi23", "i23", "Pm65", "m65", 10 ** 9 if T else 120), ("Pm65", "m65", "Pq251", "q251", 10 ** 9 if T else 60),
+             ("P3072", "I3072", "P1024", "I1024", 10 ** 9 if T else 40), ("P1024", "I1024", "P2048", "I2048", 400 if T else 30),
+             ("Ped37", "ed37", "Pi23", "i23", 1500 if T else 60), ("Ped37", "ed37", "Ped37", "ed37", 1500 if T else 40),
+             ("PEd25519", "Ed25519", "P1024", "I1024", 150 if T else 6),
+             ("PEd25519", "Ed25519", "PEd25519", "Ed25519", 150 if T else 6)]
+    out, npoints, nlines, ndistinct = [], 0, 0, 0
+    for n, (ps1, g1, ps2, g2, cap) in enumerate(pairs):
+        q1, q2 = uni.group(g1).order(), uni.group(g2).order()
+        pairing1, pairing2 = ("AB", "SS") if n % 2 == 0 else ("SS", "AB")
+
+        def mk(tag, ps, g, q, pairing, salt):
+            ids = (b"a", b"b") if pairing == "AB" else (b"s",)
+            pw = b"pw-%d" % salt
+            box = []
+
+            def script():
+                box.append(exchange(uni, tag, pairing, ps, pw, pw, ids, ids,
+                                    mp.stream_for(g, (5 + salt) % q, redraws=1), mp.stream_for(g, (7 + 3 * salt) % q),
+                                    restoreA=1, restoreB=0))
+            return script, box
+        s1, b1 = mk("preempt/%s+%s/alone" % (ps1, ps2), ps1, g1, q1, pairing1, 1)
+        lines = preempt.trace_lines(s1)
+        out.append(b1[0].json())
+        if len(lines) < 20:
+            raise MachineryError("preemption driver: the line tracer saw only %d library lines" % len(lines))
+        ks, missed = preempt.choose_points(lines, cap, ctx.rng), 0
+        nlines += len(lines)
+        ndistinct += len(set(lines))
+        for k in ks:
+            s1, b1 = mk("preempt/%s+%s/k%d/t1" % (ps1, ps2, k), ps1, g1, q1, pairing1, 1)
+            s2, b2 = mk("preempt/%s+%s/k%d/t2" % (ps1, ps2, k), ps2, g2, q2, pairing2, 2)
+            if not preempt.run_preempted(s1, s2, k):
+                missed += 1
+            out += [b1[0].json(), b2[0].json()]
+        if missed > len(ks) // 20:
+            raise MachineryError("%d of %d preemption points not reached" % (missed, len(ks)))
+        npoints += len(ks)
+        # re-entrant entropy source: exchange 2 runs inside the first (and, with a forced redraw, the second) entropy
+        # request of a start() of exchange 1
+        for which in (0, 1):
+            r = Run("reentrant/%s+%s/%d" % (ps1, ps2, which), uni)
+            ids = (b"a", b"b") if pairing1 == "AB" else (b"s",)
+            ca, cb = ("A", "B") if pairing1 == "AB" else ("S", "S")
+            r.new("a", ca, ps1, b"pw-r", *ids)
+            r.new("b", cb, ps1, b"pw-r", *ids)
+            s2, b2 = mk("reentrant/%s+%s/%d/inner" % (ps1, ps2, which), ps2, g2, q2, pairing2, 3)
+            ent = r.t.objs[r.inst["a"]].entropy_f
+            stream = mp.stream_for(g1, 9 % q1, redraws=1)
+            if which == 0:
+                ent.hook = s2
+            else:                   # inside the request that follows a rejected draw (integer groups); Ed25519: the only one
+                nb = uni.group(g1).scalar_size_bytes
+
+                def later(ent=ent, s2=s2):
+                    ent.hook = s2
+                ent.hook = (lambda: later()) if g1 not in ("Ed25519", "ed37") else s2
+            ma = r.start("a", stream)
+            mb = r.start("b", mp.stream_for(g1, 4 % q1))
+            if ma is not None and mb is not None:
+                r.finish("a", mb)
+                r.finish("b", ma)
+            out.append(r.json())
+            if b2:
+                out.append(b2[0].json())
+    ctx.cov["preemption_points_inside_calls"] = npoints
+    ctx.cov["preemption_library_lines_executed"] = nlines
+    ctx.cov["preemption_distinct_source_lines"] = ndistinct
+    return out
+
+
 def run(ctx):
     thorough = ctx.tier == "thorough"
     uni = Universe()
@@ -301,4 +382,5 @@ def run(ctx):
             for w in (1, 2):
                 mp._pw.setdefault(g, {})[w] = [b"pw-%d" % w, b"pw2-%d" % w]
         traces.append(replay(uni, mp, sc, 4, sets2, "shipped-interleaved/%d" % k))
+    traces += preemption_family(ctx, uni, mp, thorough)
     ctx.validate(traces, uni, what="interleaving")
